@@ -688,7 +688,7 @@ class Machine:
                     v = self.materialize_bytes(v.chars)
                 if isinstance(v, Ptr):
                     cell, path = v.cell, v.path
-                    if v.meta is not None and v.meta[0] == "slice":
+                    if v.meta is not None and v.meta[0] in ("slice", "vt"):
                         special = v.meta
                 elif isinstance(v, StrRef):
                     cell, path, special = Cell(v), (), ("str",)
@@ -834,7 +834,7 @@ class Machine:
                 raise Unsupported("projection into %s" % type(v).__name__)
         if loc.special is not None:
             sk = loc.special[0]
-            if sk == "str":
+            if sk == "str" or sk == "vt":
                 return v
             if sk == "vec_len":
                 if not isinstance(v, VecVal):
@@ -1590,7 +1590,9 @@ class Machine:
             if loc.special is not None:
                 if loc.special[0] == "str":
                     return loc.cell.v
-                return Ptr(loc.cell, loc.path, loc.special)
+                if loc.special[0] in ("slice", "vt"):
+                    return Ptr(loc.cell, loc.path, loc.special)
+                raise Unsupported("reference to virtual place " + loc.special[0])
             return Ptr(loc.cell, loc.path)
         if k == "agg":
             kind, ops = rv[1], rv[2]
